@@ -1,12 +1,12 @@
 SPECIFICATION Spec
 CONSTANTS
-  Accts = {"A1", "A2"}
+  Accts = {"A1"}
   BankNames = {"B1", "B2"}
   Amounts = {1, 1000003, 40000000}
-  Ticks = {3600, 31536000}
-  LiqTriples <- NoTuples
-  Prices <- NoTuples
-  BkCases <- NoTuples
+  Ticks = {31536000}
+  LiqTriples <- RiskLiq
+  Prices <- RiskPrices
+  BkCases <- RiskBk
   MaxDepth = 3
 VIEW View
 CHECK_DEADLOCK FALSE
